@@ -64,6 +64,7 @@ type Run struct {
 	knownSeen map[string]string // fingerprint -> first what
 	Deadline  time.Time
 	sums      map[string]int64
+	stage     int
 }
 
 func VerifDir() string {
